@@ -66,6 +66,7 @@ type Reader struct {
 	Delivered int
 	SawEOF    bool
 
+	grown    []byte // bytes appended to the stream after it reported EOF once (a file that grows)
 	errv     error // what a fault returns (ErrIO, or ErrTemporary)
 	withData bool  // the sticky fault arrives together with the last bytes before it: (n>0, err)
 }
@@ -196,6 +197,15 @@ func (rd *Reader) Read(p []byte) (int, error) {
 	if len(p) == 0 {
 		return 0, nil
 	}
+	if rd.pos >= lim && rd.SawEOF && rd.grown != nil && rd.truncAt < 0 {
+		// the end reported earlier was not final: the file has grown since
+		rd.data = append(append([]byte{}, rd.data...), rd.grown...)
+		rd.grown = nil
+		lim = len(rd.data)
+		endLim = lim
+		r.Fault("read.grew-after-eof")
+		r.Event("read", "grew-after-eof", rd.name)
+	}
 	if rd.pos >= lim {
 		rd.SawEOF = true
 		r.Event("read", "eof", rd.name)
@@ -265,6 +275,11 @@ func (rd *Reader) FailOnceAt(k int) {
 	}
 	rd.run.Event("fault", "transient-eio-planned", fmt.Sprintf("%s at=%d", rd.name, k))
 }
+
+// GrowAfterEOF makes the stream's end non-final: once EOF has been reported,
+// later reads deliver extra (a file another process appends to; a pipe whose
+// writer continues).
+func (rd *Reader) GrowAfterEOF(extra []byte) { rd.grown = extra }
 
 // OnceHit reports whether the transient fault was returned to the caller.
 func (rd *Reader) OnceHit() bool { return rd.onceHit }
